@@ -46,6 +46,14 @@
 #include "scpi/constants.h"
 #include "scpi/utils.h"
 
+#ifdef SCPI_PARSER_VERIF
+/* verification hook: lets a harness (un)poison the unused tail of the input buffer */
+extern void scpi_verif_input_buffer(scpi_t * context, int phase);
+#define SCPI_VERIF_INPUT(c, p) scpi_verif_input_buffer((c), (p))
+#else
+#define SCPI_VERIF_INPUT(c, p)
+#endif
+
 /**
  * Write data to SCPI output
  * @param context
@@ -318,8 +326,10 @@ scpi_bool_t SCPI_Input(scpi_t * context, const char * data, int len) {
     size_t totcmdlen = 0;
     int cmdlen = 0;
 
+    SCPI_VERIF_INPUT(context, 0);
     if (len == 0) {
         context->buffer.data[context->buffer.position] = 0;
+        SCPI_VERIF_INPUT(context, 1);
         result = SCPI_Parse(context, context->buffer.data, context->buffer.position);
         context->buffer.position = 0;
     } else {
@@ -331,11 +341,13 @@ scpi_bool_t SCPI_Input(scpi_t * context, const char * data, int len) {
             context->buffer.position = 0;
             context->buffer.data[context->buffer.position] = 0;
             SCPI_ErrorPush(context, SCPI_ERROR_INPUT_BUFFER_OVERRUN);
+            SCPI_VERIF_INPUT(context, 1);
             return FALSE;
         }
         memcpy(&context->buffer.data[context->buffer.position], data, len);
         context->buffer.position += len;
         context->buffer.data[context->buffer.position] = 0;
+        SCPI_VERIF_INPUT(context, 1);
 
 
         while (1) {
@@ -347,6 +359,7 @@ scpi_bool_t SCPI_Input(scpi_t * context, const char * data, int len) {
                 memmove(context->buffer.data, context->buffer.data + totcmdlen, context->buffer.position - totcmdlen);
                 context->buffer.position -= totcmdlen;
                 totcmdlen = 0;
+                SCPI_VERIF_INPUT(context, 1);
             } else {
                 if (context->parser_state.programHeader.type == SCPI_TOKEN_UNKNOWN
                         && context->parser_state.termination == SCPI_MESSAGE_TERMINATION_NONE) break;
@@ -355,6 +368,7 @@ scpi_bool_t SCPI_Input(scpi_t * context, const char * data, int len) {
         }
     }
 
+    SCPI_VERIF_INPUT(context, 1);
     return result;
 }
 
